@@ -519,7 +519,7 @@ wav_read_header	(SF_PRIVATE *psf, int *blockalign, int *framesperblock)
 
 						while (cue_count)
 						{
-							if ((thisread = psf_binheader_readf (psf, "e44m444", &id, &position, &chunk_id, &chunk_start, &block_start, &offset)) == 0)
+							if ((thisread = psf_binheader_readf (psf, "44m444", &id, &position, &chunk_id, &chunk_start, &block_start, &offset)) == 0)
 								break ;
 							bytesread += thisread ;
 
@@ -1222,10 +1222,10 @@ wav_write_header (SF_PRIVATE *psf, int calc_length)
 	if (psf->cues != NULL)
 	{	uint32_t k ;
 
-		psf_binheader_writef (psf, "em44", BHWm (cue_MARKER), BHW4 (4 + psf->cues->cue_count * 6 * 4), BHW4 (psf->cues->cue_count)) ;
+		psf_binheader_writef (psf, "m44", BHWm (cue_MARKER), BHW4 (4 + psf->cues->cue_count * 6 * 4), BHW4 (psf->cues->cue_count)) ;
 
 		for (k = 0 ; k < psf->cues->cue_count ; k++)
-			psf_binheader_writef (psf, "e44m444", BHW4 (psf->cues->cue_points [k].indx), BHW4 (psf->cues->cue_points [k].position),
+			psf_binheader_writef (psf, "44m444", BHW4 (psf->cues->cue_points [k].indx), BHW4 (psf->cues->cue_points [k].position),
 						BHWm (psf->cues->cue_points [k].fcc_chunk), BHW4 (psf->cues->cue_points [k].chunk_start),
 						BHW4 (psf->cues->cue_points [k].block_start), BHW4 (psf->cues->cue_points [k].sample_offset)) ;
 		} ;
